@@ -94,11 +94,6 @@ theorem pstep_ge4 : ∀ (p : Fin 8) (ti tO mp mq : Bool), 4 ≤ (pstep p ti tO m
     ((tO = true ∧ 3 ≤ p.val) ∨ (tO = false ∧ 4 ≤ p.val)) := by decide
 
 
-/-- The retry timer never expires along the schedule (`_timeout.done` is low before every instant). -/
-def NoTimeout (w t : Nat) (s : BSState) : List BSIn → Prop
-  | [] => True
-  | x :: xs => tmoDone s = false ∧ NoTimeout w t (bsStep w t s x) xs
-
 /-- Invariant of the bus synchroniser while the timer does not expire: one wavefront in the ring, and from the
     moment the request is two flops deep in the output domain (`phase ≥ 3`) the synchroniser flops of the data
     path hold exactly `ibuffer`.  `L` lists the words known to have been on `i` (and the reset value). -/
@@ -190,16 +185,6 @@ theorem bsInv_run (w t : Nat) (xs : List BSIn) : ∀ (s : BSState) (L : List Nat
     cases hti : x.ti <;> simpa [hti] using this
 
 
-
-/-- Drift bound: never more than `R` consecutive instants that have an i-clock edge but no o-clock edge
-    (`q` = length of the current run of such instants).  The i clock may be up to `R+1` times faster than the
-    o clock; nothing is assumed in the other direction. -/
-def IBurst (R : Nat) : Nat → List BSIn → Prop
-  | _, [] => True
-  | q, x :: xs =>
-    if x.tO then IBurst R 0 xs
-    else if x.ti then q < R ∧ IBurst R (q + 1) xs
-    else IBurst R q xs
 
 /-- Upper bound on the number of timer decrements still to come before the timer is reloaded, by ring phase:
     four o-edges (each after at most `R` i-only instants, possibly coinciding with an i-edge) take the request
